@@ -316,6 +316,7 @@ func classify(j *job, r result) []string {
 	return laws
 }
 
+var reHugeInt = regexp.MustCompile(`\d{10,}`)
 var reHugeFrame = regexp.MustCompile(`(?i)\b\d{10,}\s+(PRECEDING|FOLLOWING)`)
 
 // judge: the laws violated, and observations that are counted but are not violations of C19.
@@ -369,6 +370,9 @@ func judge(j *job, r result) (laws []string, notes []string) {
 		}
 		ff := firstOwnFrame(frames)
 		switch {
+		case strings.Contains(ff, "execStringsPadding") && (strings.Contains(msg, "output length overflow") || strings.Contains(msg, "makeslice") ||
+			strings.Contains(msg, "negative Repeat count") && reHugeInt.MatchString(strings.Join(j.argv(), " "))):
+			laws = append(laws, "fatal:pad_length_overflow")
 		case strings.Contains(msg, "negative Repeat count") && strings.Contains(ff, "execStringsPadding"):
 			laws = append(laws, "fatal:lpad_empty_pad")
 		case strings.Contains(msg, "nil pointer dereference") && strings.Contains(ff, "cacheViewFromFile"):
@@ -539,7 +543,7 @@ func repro(j *job) string {
 		switch f.Kind {
 		case "":
 			d := f.Data
-			if f.Name == "big.csv" && bytes.Equal(d, bigCSV()) {
+			if f.Name == "big.csv" && isBig(d) {
 				sb.WriteString(" && " + bigAwk + " > big.csv")
 				continue
 			}
@@ -706,16 +710,6 @@ func run(seed int64, n int, dir string, _ []string) {
 	must(os.MkdirAll(scratch, 0o755))
 	defer os.RemoveAll(scratch)
 
-	// ---- generate (sequential, seeded) ----
-	var jobs []*job
-	jobs = append(jobs, corpusJobs()...)
-	jobs = append(jobs, fsJobs(g)...)
-	jobs = append(jobs, stmtJobs(g, n*18/100)...)
-	jobs = append(jobs, fnJobs(g, n*47/100)...)
-	jobs = append(jobs, dataJobs(g, n*30/100)...)
-
-	// ---- run (parallel) ----
-	t0 := time.Now()
 	workers := runtime.NumCPU()
 	if workers > 32 {
 		workers = 32
@@ -723,102 +717,161 @@ func run(seed int64, n int, dir string, _ []string) {
 	if workers < 2 {
 		workers = 2
 	}
-	results := make([]result, len(jobs))
-	var wg sync.WaitGroup
-	idx := make(chan int, 256)
-	for w := 0; w < workers; w++ {
-		wg.Add(1)
-		go func() {
-			defer wg.Done()
-			for i := range idx {
-				results[i] = execJob(jobs[i])
-			}
-		}()
+	type found struct {
+		j *job
+		r result
 	}
-	for i := range jobs {
-		idx <- i
-	}
-	close(idx)
-	wg.Wait()
-
-	fmt.Fprintf(os.Stderr, "c19: %d jobs run in %.1fs with %d workers\n", len(jobs), time.Since(t0).Seconds(), workers)
-	t0 = time.Now()
-
-	// ---- judge (sequential, in generation order) ----
-	firstOf := map[string]int{}
+	firstOf := map[string]found{}
 	var order []string
-	for i, j := range jobs {
-		r := results[i]
-		o.Eval()
-		o.Count("group:" + j.Group)
-		for _, t := range j.Tags {
-			o.Count(t)
-		}
-		o.Count(fmt.Sprintf("exit:%d", r.rc))
-		if r.rc != 0 && !r.timedOut {
-			o.Count("error_class:" + errClass(r))
-		}
-		laws, notes := judge(j, r)
-		for _, nt := range notes {
-			o.Count(nt)
-		}
-		if j.InProc != nil && r.rc == 0 && len(laws) == 0 {
-			if why := j.InProc.check(j); why != "" {
-				laws = append(laws, "nonrectangular:"+why)
-			}
-			o.Count("inprocess_rect_probe")
-		}
-		sig := j.Group + ":" + strings.Join(sigTags(j.Tags), ",") + fmt.Sprintf(":%d", r.rc)
-		o.NonTrivial(sig)
-		for _, l := range laws {
-			o.Count("law_seen:" + l)
-			if _, ok := firstOf[l]; !ok {
-				firstOf[l] = i
-				order = append(order, l)
-			}
-		}
-		if len(o.Samples) < 10 && i%(len(jobs)/10+1) == 0 {
-			o.Samples = append(o.Samples, fmt.Sprintf("csvq %s  => rc=%d", trunc(strings.Join(j.argv(), " "), 160), r.rc))
-		}
-	}
+	t0 := time.Now()
+	total := 0
 
-	fmt.Fprintf(os.Stderr, "c19: judged in %.1fs, %d distinct laws\n", time.Since(t0).Seconds(), len(order))
+	// rounds of at most roundSize generated cases: generate (sequential, seeded) → run (parallel) → judge (in
+	// generation order) → forget; the corpus and the file-system conditions belong to the first round
+	const roundSize = 20000
+	for done := 0; done < n || done == 0; done += roundSize {
+		budget := n - done
+		if budget > roundSize {
+			budget = roundSize
+		}
+		var jobs []*job
+		if done == 0 {
+			jobs = append(jobs, corpusJobs()...)
+			jobs = append(jobs, fsJobs(g)...)
+		}
+		jobs = append(jobs, stmtJobs(g, budget*18/100)...)
+		jobs = append(jobs, fnJobs(g, budget*47/100)...)
+		jobs = append(jobs, dataJobs(g, budget*30/100)...)
+
+		results := make([]result, len(jobs))
+		var wg sync.WaitGroup
+		idx := make(chan int, 256)
+		for w := 0; w < workers; w++ {
+			wg.Add(1)
+			go func() {
+				defer wg.Done()
+				for i := range idx {
+					results[i] = execJob(jobs[i])
+				}
+			}()
+		}
+		for i := range jobs {
+			idx <- i
+		}
+		close(idx)
+		wg.Wait()
+
+		for i, j := range jobs {
+			r := results[i]
+			o.Eval()
+			o.Count("group:" + j.Group)
+			for _, t := range j.Tags {
+				o.Count(t)
+			}
+			o.Count(fmt.Sprintf("exit:%d", r.rc))
+			if r.rc != 0 && !r.timedOut {
+				o.Count("error_class:" + errClass(r))
+			}
+			laws, notes := judge(j, r)
+			for _, nt := range notes {
+				o.Count(nt)
+			}
+			if j.InProc != nil && r.rc == 0 && len(laws) == 0 {
+				if why := j.InProc.check(j); why != "" {
+					laws = append(laws, "nonrectangular:"+why)
+				}
+				o.Count("inprocess_rect_probe")
+			}
+			o.NonTrivial(j.Group + ":" + strings.Join(sigTags(j.Tags), ",") + fmt.Sprintf(":%d", r.rc))
+			for _, l := range laws {
+				o.Count("law_seen:" + l)
+				if _, ok := firstOf[l]; !ok {
+					firstOf[l] = found{j, r}
+					order = append(order, l)
+				}
+			}
+			if len(o.Samples) < 10 && i%(len(jobs)/10+1) == 0 {
+				o.Samples = append(o.Samples, fmt.Sprintf("csvq %s  => rc=%d", trunc(shJoin(j.argv()), 200), r.rc))
+			}
+		}
+		total += len(jobs)
+	}
+	fmt.Fprintf(os.Stderr, "c19: %d jobs run and judged in %.1fs with %d workers, %d distinct laws\n", total, time.Since(t0).Seconds(), workers, len(order))
 	t0 = time.Now()
 	defer func() { fmt.Fprintf(os.Stderr, "c19: shrunk in %.1fs\n", time.Since(t0).Seconds()) }()
 
-	// ---- shrink and report each distinct law once (the count of occurrences is in the stats) ----
-	for _, l := range order {
-		j := jobs[firstOf[l]]
-		tries := 1
-		if strings.HasPrefix(l, "panic:") {
-			tries = 6 // which worker panics second depends on the schedule
+	// ---- shrink and report each distinct law once (the count of occurrences is in the stats); laws in parallel ----
+	type report struct {
+		skip string
+		rec  map[string]interface{}
+	}
+	reports := make([]report, len(order))
+	var rwg sync.WaitGroup
+	sem := make(chan bool, 8)
+	for li, l := range order {
+		li, l := li, l
+		rwg.Add(1)
+		go func() {
+			defer rwg.Done()
+			sem <- true
+			defer func() { <-sem }()
+			orig := firstOf[l].j
+			j := orig
+			tries := 1
+			if strings.HasPrefix(l, "panic:") {
+				tries = 6 // which worker panics second depends on the schedule
+			}
+			budget := 300
+			isHang := strings.HasPrefix(l, "hang:")
+			if isHang {
+				// first make sure it is not merely slow under the load of the parallel phase: once more, with the full bound
+				if r := execJob(j); !r.timedOut {
+					reports[li].skip = "observed:slow_under_load_but_finished_on_a_second_run(not a law)"
+					return
+				}
+				// a candidate that still runs after 4 s counts as still hanging (a shrunk result is confirmed below)
+				j = j.clone()
+				j.Timeout = 4 * time.Second
+				budget = 4
+			}
+			m := shrink(j, l, tries, budget)
+			var r result
+			if isHang {
+				m.Timeout = 0
+				if strings.Join(m.argv(), "\x00") == strings.Join(orig.argv(), "\x00") {
+					r = firstOf[l].r // nothing was removed: already confirmed with the full bound
+				} else if r = execJob(m); !r.timedOut {
+					m, r = orig, firstOf[l].r
+				}
+			} else {
+				r = execJob(m)
+				for t := 0; t < tries*2 && !contains(classify(m, r), l); t++ {
+					r = execJob(m)
+				}
+				if !contains(classify(m, r), l) && !strings.HasPrefix(l, "nonrectangular:") {
+					m, r = orig, firstOf[l].r
+				}
+			}
+			reports[li].rec = map[string]interface{}{
+				"command":   "csvq " + shJoin(m.argv()),
+				"reproduce": repro(m),
+				"exit_code": r.rc,
+				"stdout":    trunc(r.stdout, 500),
+				"stderr":    trunc(r.stderr, 1800),
+				"group":     orig.Group,
+				"tags":      orig.Tags,
+				"found_as":  trunc(repro(orig), 1500),
+			}
+		}()
+	}
+	rwg.Wait()
+	for li, l := range order {
+		if reports[li].skip != "" {
+			o.Count(reports[li].skip)
+			continue
 		}
-		budget := 300
-		if strings.HasPrefix(l, "hang:") {
-			// a candidate that still runs after 4 s counts as still hanging
-			j = j.clone()
-			j.Timeout = 4 * time.Second
-			budget = 8
-		}
-		m := shrink(j, l, tries, budget)
-		r := execJob(m)
-		for t := 0; t < tries*2 && !contains(classify(m, r), l); t++ {
-			r = execJob(m)
-		}
-		if !contains(classify(m, r), l) && !strings.HasPrefix(l, "nonrectangular:") {
-			m, r = j, results[firstOf[l]]
-		}
-		o.Law(l, map[string]interface{}{
-			"command":     "csvq " + shJoin(m.argv()),
-			"reproduce":   repro(m),
-			"exit_code":   r.rc,
-			"stdout":      trunc(r.stdout, 500),
-			"stderr":      trunc(r.stderr, 1800),
-			"occurrences": o.Stats["law_seen:"+l],
-			"group":       j.Group,
-			"tags":        j.Tags,
-			"found_as":    trunc(repro(j), 1500),
-		})
+		reports[li].rec["occurrences"] = o.Stats["law_seen:"+l]
+		o.Law(l, reports[li].rec)
 	}
 }
 
@@ -870,4 +923,13 @@ func errClass(r result) string {
 		return fmt.Sprintf("rc%d:(other)", r.rc)
 	}
 	return fmt.Sprintf("rc%d:%s", r.rc, strings.Join(keep, " "))
+}
+
+var bigOnce []byte
+
+func isBig(d []byte) bool {
+	if bigOnce == nil {
+		bigOnce = bigCSV()
+	}
+	return bytes.Equal(d, bigOnce)
 }
